@@ -91,6 +91,47 @@ def h_xml_events(I, job):
     else: I.reach('rejected')
 
 
+XML_TARGETS = [
+    # (context events before, element, fixed attributes, attribute made hostile)
+    ('osm', 'node', 'id'), ('osm', 'node', 'version'), ('osm', 'node', 'timestamp'), ('osm', 'node', 'uid'), ('osm', 'node', 'changeset'), ('osm', 'node', 'visible'), ('osm', 'node', 'lat'), ('osm', 'node', 'lon'), ('osm', 'node', 'user'),
+    ('way', 'nd', 'ref'), ('way', 'nd', 'lat'), ('relation', 'member', 'type'), ('relation', 'member', 'ref'), ('relation', 'member', 'role'), ('node', 'tag', 'k'), ('node', 'tag', 'v'),
+    ('osm', 'bounds', 'minlat'), ('top', 'osm', 'version'), ('osm', 'changeset', 'id'), ('osm', 'changeset', 'created_at'), ('osm', 'changeset', 'num_changes'), ('osm', 'changeset', 'min_lon'), ('osm', 'changeset', 'open'),
+    ('discussion', 'comment', 'date'), ('discussion', 'comment', 'uid'), ('osm', 'node', None), ('osm', None, None), ('node', None, None), ('top', None, None), ('osmChange', None, None),
+]
+XML_AFFIX = dict(timestamp=('2015-01-01T00:00:', ''), created_at=('2015-01-01T00:', ':00Z'), date=('2015-01-', 'T00:00:00Z'), lat=('1.', ''), lon=('-', 'e1'), min_lon=('17', '.5'), id=('-', ''), ref=('1', '1'), version=('', '0'), uid=('42949672', ''))
+XML_DEFAULTS = dict(node=[('id', '7'), ('version', '2'), ('timestamp', '2015-01-01T00:00:00Z'), ('uid', '3'), ('user', 'u'), ('changeset', '9'), ('visible', 'true'), ('lat', '1.5'), ('lon', '2.5')],
+                    nd=[('ref', '5'), ('lat', '1'), ('lon', '2')], member=[('type', 'way'), ('ref', '8'), ('role', 'outer')], tag=[('k', 'key'), ('v', 'value')],
+                    bounds=[('minlat', '1'), ('minlon', '2'), ('maxlat', '3'), ('maxlon', '4')], osm=[('version', '0.6'), ('generator', 'g')],
+                    changeset=[('id', '4'), ('created_at', '2015-01-01T00:00:00Z'), ('closed_at', '2015-01-01T01:00:00Z'), ('num_changes', '2'), ('min_lon', '1'), ('min_lat', '2'), ('max_lon', '3'), ('max_lat', '4'), ('uid', '3'), ('user', 'u'), ('open', 'false'), ('comments_count', '1')],
+                    comment=[('date', '2015-01-01T00:00:00Z'), ('uid', '5'), ('user', 'c')])
+
+
+def h_xml_hostile(I, job):
+    """one attribute value, attribute name or element name of an otherwise well-formed element script consists of arbitrary non-NUL bytes"""
+    from xmlenc import S, E, run_script
+    ctx, el, attr = XML_TARGETS[job['target']]; K = job['sym']
+    hb = sym_bytes(I, K)
+    for b in hb: I.assume(I.term(b, 8) != 0)
+    hostile = list(hb)
+    pre = {'top': [], 'osm': [S('osm', XML_DEFAULTS['osm'])], 'osmChange': [S('osmChange', XML_DEFAULTS['osm'])],
+           'node': [S('osm', XML_DEFAULTS['osm']), S('node', XML_DEFAULTS['node'])], 'way': [S('osm', XML_DEFAULTS['osm']), S('way', XML_DEFAULTS['node'][:6])],
+           'relation': [S('osm', XML_DEFAULTS['osm']), S('relation', XML_DEFAULTS['node'][:6])],
+           'discussion': [S('osm', XML_DEFAULTS['osm']), S('changeset', XML_DEFAULTS['changeset']), S('discussion')]}[ctx]
+    if el is None: ev = pre + [S(hostile, [('id', '1'), ('k', 'a'), ('version', '0.6')]), E]                                   # hostile element name
+    elif attr is None: ev = pre + [S(el, [(hostile, '1')] + XML_DEFAULTS[el]), E]                                              # hostile attribute name
+    else:
+        pf, sf = XML_AFFIX.get(attr, ('', '')) if job.get('affix') else ('', '')
+        ev = pre + [S(el, [(k, [pf, hostile, sf] if k == attr else v) for k, v in XML_DEFAULTS[el]]), E]
+    if ctx in ('node', 'way', 'relation'): ev += [S('tag', XML_DEFAULTS['tag']), E]
+    ev += [E] * len(pre)
+    rc, out, n, hdr = run_script(I, ev)
+    I.observe('rc', rc)
+    if rc == 3: raise Finding('exception-type', 'an exception not derived from std::exception leaves the XML callbacks')
+    I.reach('end')
+    if rc == 0: I.reach('accepted')
+    else: I.reach('rejected')
+
+
 def harnesses(tier):
     q = tier == 'quick'
     K = 3 if q else 4
@@ -112,5 +153,9 @@ def harnesses(tier):
         Harness('xml_changeset_events', 'xml', h_xml_events, setup=setup_xml, reach=('end', 'accepted', 'rejected'), sanitize=True, tests=[dict(_job=0, ev0=1, ev1=6, ev2=5)], jobs=[dict(n=k) for k in ((3, 4, 5) if q else (3, 4, 5, 6))],
                 desc='XMLParser element callbacks (start_element, characters, end_element) inside <osm><changeset> for every well-nested sequence of <discussion>, <comment>, <text>, character data, <tag> and end events: memory-safe, std exceptions only, the delivered changeset (discussion comments, tags) is traversed completely in an exact-size copy',
                 bounds='event lists of length <= %d over 6 event kinds; expat (tokenising, well-formedness) is not encoded' % (5 if q else 6)),
+        Harness('xml_hostile_attributes', 'xml', h_xml_hostile, mode='INT', setup=setup_xml, reach=('end', 'accepted', 'rejected'), sanitize=True, wall=900,
+                jobs=[dict(target=t, sym=K) for t in range(len(XML_TARGETS))] + [dict(target=t, sym=K, affix=1) for t in range(len(XML_TARGETS)) if XML_TARGETS[t][2] in XML_AFFIX],
+                desc='XMLParser element callbacks on element scripts in which one attribute value (every attribute of node, nd, member, tag, bounds, osm, changeset, comment), one attribute name or one element name (at top level, in <osm>, <osmChange>, <node>) consists of arbitrary non-NUL bytes, alone or embedded in an otherwise valid value (timestamps, coordinates, numbers near their limits): memory-safe, ends by return or an exception derived from std::exception, every delivered object is traversed completely in an exact-size copy',
+                bounds='%d symbolic bytes per job, %d + 14 jobs; expat (tokenising, well-formedness, UTF-8 checking) is not encoded' % (K, len(XML_TARGETS))),
     ]
     return hs
